@@ -1,2 +1,652 @@
 (* C14 — lemmas and proofs. *)
+From Coq Require Import ZifyBool ZifyNat.
 From Dastard Require Import Common.ZX C14.Model C14.Spec.
+
+(* ---------- little-endian encode / decode, every width ---------- *)
+
+Lemma le_length k : forall n, length (le k n) = k.
+Proof. induction k as [|k IH]; intro n; cbn [le length]; [reflexivity | now rewrite IH]. Qed.
+
+Lemma zlen_le k n : zlen (le k n) = Z.of_nat k.
+Proof. unfold zlen. now rewrite le_length. Qed.
+
+Lemma pow256 k : 2 ^ (8 * Z.of_nat (S k)) = 256 * 2 ^ (8 * Z.of_nat k).
+Proof.
+  replace (8 * Z.of_nat (S k)) with (8 + 8 * Z.of_nat k) by lia.
+  rewrite Z.pow_add_r by lia. reflexivity.
+Qed.
+
+Lemma pow8k_pos k : 0 < 2 ^ (8 * Z.of_nat k).
+Proof. apply Z.pow_pos_nonneg; lia. Qed.
+
+(* decoding what [le k] wrote gives the low 8k bits of n, for EVERY integer n *)
+Lemma unle_le_mod k : forall n, unle (le k n) = n mod 2 ^ (8 * Z.of_nat k).
+Proof.
+  induction k as [|k IH]; intro n.
+  - cbn [le unle]. change (2 ^ (8 * Z.of_nat 0)) with 1. now rewrite Z.mod_1_r.
+  - cbn [le unle]. rewrite IH, pow256.
+    pose proof (pow8k_pos k) as Hp.
+    rewrite Z.rem_mul_r by lia. reflexivity.
+Qed.
+
+(* the generic round trip: for every width k, every value that fits k bytes *)
+Lemma unle_le k n : 0 <= n < 2 ^ (8 * Z.of_nat k) -> unle (le k n) = n.
+Proof. intro H. rewrite unle_le_mod. now apply Z.mod_small. Qed.
+
+Lemma le_is_bytes k : forall n, Forall (fun b => 0 <= b < 256) (le k n).
+Proof.
+  induction k as [|k IH]; intro n; cbn [le]; constructor; [|apply IH].
+  apply Z.mod_pos_bound; lia.
+Qed.
+
+Lemma bytes_ok_iff bs : bytes_ok bs = true <-> Forall (fun b => 0 <= b < 256) bs.
+Proof.
+  unfold bytes_ok. rewrite forallb_forall, Forall_forall.
+  split; intros H b Hb; specialize (H b Hb); unfold is_byte in *; lia.
+Qed.
+
+Lemma le_bytes_ok k n : bytes_ok (le k n) = true.
+Proof. apply bytes_ok_iff, le_is_bytes. Qed.
+
+Lemma bytes_ok_app a b : bytes_ok (a ++ b) = bytes_ok a && bytes_ok b.
+Proof. unfold bytes_ok. apply forallb_app. Qed.
+
+Lemma unle_bound bs : Forall (fun b => 0 <= b < 256) bs -> 0 <= unle bs < 2 ^ (8 * zlen bs).
+Proof.
+  induction 1 as [|b bs Hb _ IH].
+  - cbn. lia.
+  - cbn [unle]. unfold zlen in *. cbn [length]. rewrite pow256. lia.
+Qed.
+
+(* the converse round trip: re-encoding a decoded byte string gives it back *)
+Lemma le_unle bs : Forall (fun b => 0 <= b < 256) bs -> le (length bs) (unle bs) = bs.
+Proof.
+  induction 1 as [|b bs Hb _ IH]; [reflexivity|].
+  cbn [length le unle]. f_equal.
+  - replace (b + 256 * unle bs) with (b + unle bs * 256) by lia.
+    rewrite Z.mod_add by lia. now apply Z.mod_small.
+  - replace (b + 256 * unle bs) with (b + unle bs * 256) by lia.
+    rewrite Z.div_add by lia. rewrite Z.div_small by lia. now rewrite Z.add_0_l.
+Qed.
+
+(* [le k] only looks at n modulo 2^(8k) *)
+Lemma le_mod k : forall n, le k (n mod 2 ^ (8 * Z.of_nat k)) = le k n.
+Proof.
+  induction k as [|k IH]; intro n; [reflexivity|].
+  cbn [le]. pose proof (pow8k_pos k) as Hp. rewrite pow256.
+  rewrite Z.rem_mul_r by lia. f_equal.
+  - replace (n mod 256 + 256 * ((n / 256) mod 2 ^ (8 * Z.of_nat k)))
+      with (n mod 256 + (n / 256) mod 2 ^ (8 * Z.of_nat k) * 256) by lia.
+    rewrite Z.mod_add by lia. apply Z.mod_mod; lia.
+  - replace (n mod 256 + 256 * ((n / 256) mod 2 ^ (8 * Z.of_nat k)))
+      with (n mod 256 + (n / 256) mod 2 ^ (8 * Z.of_nat k) * 256) by lia.
+    rewrite Z.div_add by lia.
+    rewrite Z.div_small by (apply Z.mod_pos_bound; lia). rewrite Z.add_0_l. apply IH.
+Qed.
+
+(* ---------- two's complement ---------- *)
+
+Lemma twos_mod bits n : 0 < bits -> - 2 ^ (bits - 1) <= n < 2 ^ (bits - 1) ->
+  twos bits (n mod 2 ^ bits) = n.
+Proof.
+  intros Hb Hn. unfold twos.
+  assert (Hp : 2 ^ bits = 2 * 2 ^ (bits - 1)).
+  { replace bits with (1 + (bits - 1)) at 1 by lia. rewrite Z.pow_add_r by lia. reflexivity. }
+  assert (0 < 2 ^ (bits - 1)) by (apply Z.pow_pos_nonneg; lia).
+  destruct (Z_lt_dec n 0) as [Hneg|Hpos].
+  - assert (E : n mod 2 ^ bits = n + 2 ^ bits).
+    { symmetry. apply Z.mod_unique with (q := -1); lia. }
+    rewrite E. destruct (n + 2 ^ bits <? 2 ^ (bits - 1)) eqn:C; lia.
+  - rewrite Z.mod_small by lia. destruct (n <? 2 ^ (bits - 1)) eqn:C; lia.
+Qed.
+
+Lemma twos_range bits u : 0 < bits -> 0 <= u < 2 ^ bits ->
+  - 2 ^ (bits - 1) <= twos bits u < 2 ^ (bits - 1) /\ twos bits u mod 2 ^ bits = u.
+Proof.
+  intros Hb Hu. unfold twos.
+  assert (Hp : 2 ^ bits = 2 * 2 ^ (bits - 1)).
+  { replace bits with (1 + (bits - 1)) at 1 by lia. rewrite Z.pow_add_r by lia. reflexivity. }
+  destruct (u <? 2 ^ (bits - 1)) eqn:C.
+  - split; [lia|]. apply Z.mod_small; lia.
+  - split; [lia|]. symmetry. apply Z.mod_unique with (q := -1); lia.
+Qed.
+
+(* signed 64-bit round trip (trigger time, frame index) *)
+Lemma int64_roundtrip n : - 2 ^ 63 <= n < 2 ^ 63 -> twos 64 (unle (le 8 n)) = n.
+Proof.
+  intro H. rewrite unle_le_mod. change (8 * Z.of_nat 8) with 64.
+  apply twos_mod; [lia|]. change (64 - 1) with 63. exact H.
+Qed.
+
+(* ---------- slices of concatenations: how a field is found at its documented offset ---------- *)
+
+Lemma skipn_app_plus {A} (a b : list A) n : skipn (length a + n) (a ++ b) = skipn n b.
+Proof. induction a as [|x a IH]; [reflexivity | exact IH]. Qed.
+
+Lemma zslice_app_skip {A} (a b : list A) off off' len :
+  off' = off - zlen a -> 0 <= off' ->
+  zslice (a ++ b) off len = zslice b off' len.
+Proof.
+  intros -> H. unfold zslice, zskipn, zlen in *. f_equal.
+  replace (Z.to_nat off) with (length a + Z.to_nat (off - Z.of_nat (length a)))%nat by lia.
+  apply skipn_app_plus.
+Qed.
+
+Lemma zslice_app_take {A} (a b : list A) off len :
+  off = 0 -> zlen a = len -> zslice (a ++ b) off len = a.
+Proof.
+  intros -> <-. unfold zslice, zskipn, zfirstn, zlen. cbn [Z.to_nat skipn].
+  rewrite Nat2Z.id, firstn_app, firstn_all, Nat.sub_diag. cbn [firstn]. apply app_nil_r.
+Qed.
+
+Lemma zslice_take_all {A} (a : list A) off len :
+  off = 0 -> zlen a = len -> zslice a off len = a.
+Proof. intros H1 H2. rewrite <- (app_nil_r a) at 1. now apply zslice_app_take. Qed.
+
+Lemma zfirstn_app_exact {A} (a b : list A) n : zlen a = n -> zfirstn n (a ++ b) = a.
+Proof.
+  intros <-. unfold zfirstn, zlen. rewrite Nat2Z.id, firstn_app, firstn_all, Nat.sub_diag.
+  cbn [firstn]. apply app_nil_r.
+Qed.
+
+(* ---------- payload frames ---------- *)
+
+Lemma words16_samples d : Forall (fun v => 0 <= v < 2 ^ 16) d -> words16 (raw_type_to_bytes d) = d.
+Proof.
+  unfold raw_type_to_bytes. induction 1 as [|v d Hv _ IH]; [reflexivity|].
+  cbn [flat_map]. change (le 2 v ++ flat_map (le 2) d)
+    with (v mod 256 :: (v / 256) mod 256 :: flat_map (le 2) d).
+  cbn [words16]. rewrite IH. f_equal.
+  change [v mod 256; (v / 256) mod 256] with (le 2 v). apply unle_le. exact Hv.
+Qed.
+
+Lemma words64_coefs d : Forall (fun v => 0 <= v < 2 ^ 64) d -> words64 (from_slice_float64 d) = d.
+Proof.
+  unfold from_slice_float64. induction 1 as [|v d Hv _ IH]; [reflexivity|].
+  cbn [flat_map]. remember (flat_map (le 8) d) as rest.
+  cbn [le app words64]. rewrite IH. f_equal.
+  change (unle (le 8 v) = v). apply unle_le. exact Hv.
+Qed.
+
+Lemma zlen_flat_map_le k d : zlen (flat_map (le k) d) = Z.of_nat k * zlen d.
+Proof.
+  induction d as [|v d IH]; [cbn; lia|].
+  cbn [flat_map]. rewrite zlen_app, IH, zlen_le. unfold zlen. cbn [length]. lia.
+Qed.
+
+Lemma bytes_ok_flat_map_le k d : bytes_ok (flat_map (le k) d) = true.
+Proof.
+  induction d as [|v d IH]; [reflexivity|].
+  cbn [flat_map]. now rewrite bytes_ok_app, le_bytes_ok, IH.
+Qed.
+
+(* ---------- the fields of the two headers sit at the documented offsets ---------- *)
+
+Ltac skip_field :=
+  erewrite zslice_app_skip; [ | reflexivity | rewrite zlen_le; lia ].
+Ltac take_field :=
+  first [ apply zslice_app_take; [ lia | rewrite zlen_le; lia ]
+        | apply zslice_take_all; [ lia | rewrite zlen_le; lia ] ].
+Ltac find_field := repeat skip_field; take_field.
+
+Lemma record_header_layout r :
+  let h := record_header r in
+  zslice h 0 2 = le 2 (r_chan r) /\
+  zslice h 2 1 = le 1 0 /\
+  zslice h 3 1 = le 1 (if r_signed r then 2 else 3) /\
+  zslice h 4 4 = le 4 (r_pre r) /\
+  zslice h 8 4 = le 4 (zlen (r_data r)) /\
+  zslice h 12 4 = le 4 (r_period r) /\
+  zslice h 16 4 = le 4 (r_vpa r) /\
+  zslice h 20 8 = le 8 (r_time r) /\
+  zslice h 28 8 = le 8 (r_frame r).
+Proof. cbv zeta. unfold record_header. repeat split; find_field. Qed.
+
+Lemma summary_header_layout r :
+  let h := summary_header r in
+  zslice h 0 2 = le 2 (r_chan r) /\
+  zslice h 2 2 = le 2 0 /\
+  zslice h 4 4 = le 4 (r_pre r) /\
+  zslice h 8 4 = le 4 (zlen (r_data r)) /\
+  zslice h 12 4 = le 4 (r_ptmean r) /\
+  zslice h 16 4 = le 4 (r_peak r) /\
+  zslice h 20 4 = le 4 (r_rms r) /\
+  zslice h 24 4 = le 4 (r_avg r) /\
+  zslice h 28 4 = le 4 (r_resid r) /\
+  zslice h 32 8 = le 8 (r_time r) /\
+  zslice h 40 8 = le 8 (r_frame r).
+Proof. cbv zeta. unfold summary_header. repeat split; find_field. Qed.
+
+Lemma record_header_length r : zlen (record_header r) = 36.
+Proof. unfold record_header. rewrite !zlen_app, !zlen_le. reflexivity. Qed.
+
+Lemma summary_header_length r : zlen (summary_header r) = 48.
+Proof. unfold summary_header. rewrite !zlen_app, !zlen_le. reflexivity. Qed.
+
+Lemma record_header_bytes r : bytes_ok (record_header r) = true.
+Proof. unfold record_header. rewrite !bytes_ok_app, !le_bytes_ok. reflexivity. Qed.
+
+Lemma summary_header_bytes r : bytes_ok (summary_header r) = true.
+Proof. unfold summary_header. rewrite !bytes_ok_app, !le_bytes_ok. reflexivity. Qed.
+
+(* ---------- decoding per the document recovers the record ---------- *)
+
+Lemma u8 n : 0 <= n < 2 ^ 8 -> unle (le 1 n) = n.
+Proof. intro H. apply unle_le. exact H. Qed.
+Lemma u16 n : 0 <= n < 2 ^ 16 -> unle (le 2 n) = n.
+Proof. intro H. apply unle_le. exact H. Qed.
+Lemma u32 n : 0 <= n < 2 ^ 32 -> unle (le 4 n) = n.
+Proof. intro H. apply unle_le. exact H. Qed.
+Lemma u64 n : 0 <= n < 2 ^ 64 -> unle (le 8 n) = n.
+Proof. intro H. apply unle_le. exact H. Qed.
+
+Lemma record_roundtrip r : fits r -> decode_record (record_msg r) = Some (rec_fields_of r).
+Proof.
+  intros (Hc & Hp & Hn & Hd & Hpe & Hv & Ht & Hf & _).
+  pose proof (zlen_nonneg (r_data r)) as Hn0.
+  unfold decode_record, record_msg, int64_at, uint_at.
+  destruct (record_header_layout r) as (L0 & L2 & L3 & L4 & L8 & L12 & L16 & L20 & L28).
+  rewrite L0, L2, L3, L4, L8, L12, L16, L20, L28.
+  rewrite record_header_length, record_header_bytes.
+  unfold raw_type_to_bytes at 1 2. rewrite bytes_ok_flat_map_le, zlen_flat_map_le.
+  rewrite (u16 _ Hc), (u32 _ Hp), (u32 _ Hpe), (u32 _ Hv), (u32 (zlen (r_data r))) by lia.
+  rewrite (int64_roundtrip _ Ht), (int64_roundtrip _ Hf).
+  rewrite (words16_samples _ Hd).
+  rewrite (u8 0) by (cbn; lia).
+  rewrite (u8 (if r_signed r then 2 else 3)) by (destruct (r_signed r); cbn; lia).
+  rewrite Z.eqb_refl. cbn [andb].
+  assert (E : (Z.of_nat 2 * zlen (r_data r) =? 2 * zlen (r_data r)) = true) by (apply Z.eqb_eq; lia).
+  rewrite E.
+  unfold rec_fields_of. destruct (r_signed r); reflexivity.
+Qed.
+
+Lemma summary_roundtrip r : fits r -> decode_summary (summary_msg r) = Some (sum_fields_of r).
+Proof.
+  intros (Hc & Hp & Hn & _ & _ & _ & Ht & Hf & H1 & H2 & H3 & H4 & H5 & Hco).
+  pose proof (zlen_nonneg (r_data r)) as Hn0.
+  unfold decode_summary, summary_msg, int64_at, uint_at.
+  destruct (summary_header_layout r) as (L0 & L2 & L4 & L8 & L12 & L16 & L20 & L24 & L28 & L32 & L40).
+  rewrite L0, L2, L4, L8, L12, L16, L20, L24, L28, L32, L40.
+  rewrite summary_header_length, summary_header_bytes.
+  unfold from_slice_float64 at 1 2. rewrite bytes_ok_flat_map_le, zlen_flat_map_le.
+  rewrite (u16 _ Hc), (u32 _ Hp), (u32 _ H1), (u32 _ H2), (u32 _ H3), (u32 _ H4), (u32 _ H5),
+          (u32 (zlen (r_data r))) by lia.
+  rewrite (int64_roundtrip _ Ht), (int64_roundtrip _ Hf).
+  rewrite (words64_coefs _ Hco).
+  rewrite (u16 0) by (cbn; lia).
+  rewrite Z.eqb_refl. cbn [andb].
+  assert (E : (Z.of_nat 8 * zlen (r_coefs r)) mod 8 =? 0 = true).
+  { apply Z.eqb_eq. change (Z.of_nat 8) with 8. rewrite Z.mul_comm. apply Z.mod_mul. lia. }
+  rewrite E. reflexivity.
+Qed.
+
+(* ---------- frame shapes and the subscription prefix ---------- *)
+
+Lemma frame_lengths r :
+  map zlen (record_msg r) = [36; 2 * zlen (r_data r)] /\
+  map zlen (summary_msg r) = [48; 8 * zlen (r_coefs r)].
+Proof.
+  unfold record_msg, summary_msg, raw_type_to_bytes, from_slice_float64. cbn [map].
+  now rewrite record_header_length, summary_header_length, !zlen_flat_map_le.
+Qed.
+
+Lemma header_lengths_proof r :
+  length (record_msg r) = 2%nat /\ length (summary_msg r) = 2%nat /\
+  zlen (nth 0 (record_msg r) []) = 36 /\ zlen (nth 0 (summary_msg r) []) = 48.
+Proof.
+  split; [reflexivity|]. split; [reflexivity|].
+  split; [apply record_header_length | apply summary_header_length].
+Qed.
+
+Lemma payload_length_proof r :
+  zlen (nth 1 (record_msg r) []) = 2 * zlen (r_data r) /\
+  zlen (nth 1 (summary_msg r) []) = 8 * zlen (r_coefs r).
+Proof.
+  unfold record_msg, summary_msg, raw_type_to_bytes, from_slice_float64. cbn [nth].
+  now rewrite !zlen_flat_map_le.
+Qed.
+
+Lemma le2_explicit c : 0 <= c < 2 ^ 16 -> le 2 c = channel_prefix c.
+Proof.
+  intro H. unfold channel_prefix. cbn [le]. f_equal. f_equal.
+  apply Z.mod_small. split; [apply Z.div_pos; lia | apply Z.div_lt_upper_bound; lia].
+Qed.
+
+Lemma record_prefix r : zfirstn 2 (record_header r) = le 2 (r_chan r).
+Proof. unfold record_header. apply zfirstn_app_exact. apply zlen_le. Qed.
+
+Lemma summary_prefix r : zfirstn 2 (summary_header r) = le 2 (r_chan r).
+Proof. unfold summary_header. apply zfirstn_app_exact. apply zlen_le. Qed.
+
+Lemma prefix_is_channel_proof r : 0 <= r_chan r < 2 ^ 16 ->
+  zfirstn 2 (nth 0 (record_msg r) []) = [r_chan r mod 256; r_chan r / 256] /\
+  zfirstn 2 (nth 0 (summary_msg r) []) = [r_chan r mod 256; r_chan r / 256] /\
+  unle [r_chan r mod 256; r_chan r / 256] = r_chan r.
+Proof.
+  intro H. cbn [record_msg summary_msg nth].
+  rewrite record_prefix, summary_prefix, (le2_explicit _ H). unfold channel_prefix.
+  repeat split. cbn [unle]. pose proof (Z.div_mod (r_chan r) 256). lia.
+Qed.
+
+(* distinct channels have distinct prefixes: a 2-byte subscription selects exactly one channel *)
+Lemma prefix_separates_proof r1 r2 :
+  0 <= r_chan r1 < 2 ^ 16 -> 0 <= r_chan r2 < 2 ^ 16 ->
+  (zfirstn 2 (nth 0 (record_msg r1) []) = zfirstn 2 (nth 0 (record_msg r2) []) \/
+   zfirstn 2 (nth 0 (summary_msg r1) []) = zfirstn 2 (nth 0 (summary_msg r2) [])) ->
+  r_chan r1 = r_chan r2.
+Proof.
+  intros H1 H2 E.
+  destruct (prefix_is_channel_proof r1 H1) as (A1 & B1 & C1).
+  destruct (prefix_is_channel_proof r2 H2) as (A2 & B2 & C2).
+  rewrite A1, A2, B1, B2 in E. rewrite <- C1, <- C2.
+  destruct E as [E|E]; now rewrite E.
+Qed.
+
+(* ---------- the checker: the model passes it; what acceptance means; acceptance is tight ---------- *)
+
+Lemma fits_b_iff r : fits_b r = true <-> fits r.
+Proof.
+  unfold fits_b, fits, in_range. rewrite !andb_true_iff, !forallb_forall, !Forall_forall.
+  split.
+  - intros H. repeat match goal with H : _ /\ _ |- _ => destruct H end.
+    repeat split; try lia.
+    all: intros v Hv; match goal with H : forall x, In x _ -> _ |- _ => specialize (H v Hv); lia end.
+  - intros H. repeat match goal with H : _ /\ _ |- _ => destruct H end.
+    repeat split; try lia.
+    all: intros v Hv; match goal with H : forall x, In x _ -> _ |- _ => specialize (H v Hv); lia end.
+Qed.
+
+Lemma rec_fields_eqb_eq a b : rec_fields_eqb a b = true <-> a = b.
+Proof.
+  unfold rec_fields_eqb. rewrite !andb_true_iff, !Z.eqb_eq, zlist_eqb_eq, Bool.eqb_true_iff.
+  split.
+  - intros H. repeat match goal with H : _ /\ _ |- _ => destruct H end.
+    destruct a, b; cbn in *; congruence.
+  - intros ->. repeat split.
+Qed.
+
+Lemma sum_fields_eqb_eq a b : sum_fields_eqb a b = true <-> a = b.
+Proof.
+  unfold sum_fields_eqb. rewrite !andb_true_iff, !Z.eqb_eq, zlist_eqb_eq.
+  split.
+  - intros H. repeat match goal with H : _ /\ _ |- _ => destruct H end.
+    destruct a, b; cbn in *; congruence.
+  - intros ->. repeat split.
+Qed.
+
+Lemma shape_ok_record r : 0 <= r_chan r < 2 ^ 16 -> shape_ok r 36 2 (zlen (r_data r)) (record_msg r) = true.
+Proof.
+  intro H. unfold shape_ok, record_msg.
+  rewrite record_header_length, record_prefix, (le2_explicit _ H).
+  unfold raw_type_to_bytes. rewrite zlen_flat_map_le.
+  rewrite !andb_true_iff, !Z.eqb_eq, zlist_eqb_eq. repeat split; lia.
+Qed.
+
+Lemma shape_ok_summary r : 0 <= r_chan r < 2 ^ 16 -> shape_ok r 48 8 (zlen (r_coefs r)) (summary_msg r) = true.
+Proof.
+  intro H. unfold shape_ok, summary_msg.
+  rewrite summary_header_length, summary_prefix, (le2_explicit _ H).
+  unfold from_slice_float64. rewrite zlen_flat_map_le.
+  rewrite !andb_true_iff, !Z.eqb_eq, zlist_eqb_eq. repeat split; lia.
+Qed.
+
+(* the model's messages pass the checker, for every record in the domain *)
+Lemma model_passes_checker_proof r : fits r -> C14_check r (record_msg r) (summary_msg r) = true.
+Proof.
+  intro F. unfold C14_check, check_record_msg, check_summary_msg.
+  rewrite (record_roundtrip r F), (summary_roundtrip r F).
+  destruct F as (Hc & _).
+  rewrite (shape_ok_record r Hc), (shape_ok_summary r Hc).
+  rewrite !andb_true_iff. repeat split; [apply rec_fields_eqb_eq | apply sum_fields_eqb_eq]; reflexivity.
+Qed.
+
+(* what the checker's "true" means, independent of any model *)
+Lemma checker_sound_proof r recmsg summsg :
+  C14_check r recmsg summsg = true ->
+  decode_record recmsg = Some (rec_fields_of r) /\
+  decode_summary summsg = Some (sum_fields_of r) /\
+  (exists h p, recmsg = [h; p] /\ zlen h = 36 /\ zlen p = 2 * zlen (r_data r) /\
+               zfirstn 2 h = [r_chan r mod 256; r_chan r / 256]) /\
+  (exists h p, summsg = [h; p] /\ zlen h = 48 /\ zlen p = 8 * zlen (r_coefs r) /\
+               zfirstn 2 h = [r_chan r mod 256; r_chan r / 256]).
+Proof.
+  unfold C14_check, check_record_msg, check_summary_msg. rewrite !andb_true_iff.
+  intros ((D1 & S1) & (D2 & S2)).
+  split; [|split; [|split]].
+  - destruct (decode_record recmsg) as [f|]; [|discriminate]. apply rec_fields_eqb_eq in D1. now subst.
+  - destruct (decode_summary summsg) as [f|]; [|discriminate]. apply sum_fields_eqb_eq in D2. now subst.
+  - unfold shape_ok in S1. destruct recmsg as [|h [|p [|x l]]]; try discriminate.
+    rewrite !andb_true_iff, !Z.eqb_eq, zlist_eqb_eq in S1. destruct S1 as ((A & B) & C).
+    exists h, p. auto.
+  - unfold shape_ok in S2. destruct summsg as [|h [|p [|x l]]]; try discriminate.
+    rewrite !andb_true_iff, !Z.eqb_eq, zlist_eqb_eq in S2. destruct S2 as ((A & B) & C).
+    exists h, p. auto.
+Qed.
+
+(* ---------- tightness: an accepted message is byte for byte the model's message ---------- *)
+
+Definition byte_list (bs : list Z) : Prop := Forall (fun b => 0 <= b < 256) bs.
+
+Lemma skipn_skipn_plus {A} a n : forall l : list A, skipn n (skipn a l) = skipn (a + n) l.
+Proof. induction a as [|a IH]; intro l; [reflexivity|]. destruct l; [now rewrite !skipn_nil | apply IH]. Qed.
+
+Lemma zskipn_step {A} (l : list A) a n : 0 <= a -> 0 <= n ->
+  zskipn a l = zslice l a n ++ zskipn (a + n) l.
+Proof.
+  intros Ha Hn. unfold zslice, zfirstn, zskipn.
+  replace (Z.to_nat (a + n)) with (Z.to_nat a + Z.to_nat n)%nat by lia.
+  rewrite <- skipn_skipn_plus. symmetry. apply firstn_skipn.
+Qed.
+
+Lemma zskipn_all {A} (l : list A) n : zlen l <= n -> zskipn n l = [].
+Proof. intro H. unfold zskipn, zlen in *. apply skipn_all2. lia. Qed.
+
+Lemma Forall_firstn_ {A} (P : A -> Prop) n : forall l, Forall P l -> Forall P (firstn n l).
+Proof.
+  induction n as [|n IH]; intros l H; [constructor|].
+  destruct H as [|x l Hx Hl]; [constructor|]. cbn [firstn]. constructor; auto.
+Qed.
+
+Lemma Forall_skipn_ {A} (P : A -> Prop) n : forall l, Forall P l -> Forall P (skipn n l).
+Proof.
+  induction n as [|n IH]; intros l H; [exact H|].
+  destruct H as [|x l Hx Hl]; [constructor|]. cbn [skipn]. auto.
+Qed.
+
+Lemma byte_list_slice bs a n : byte_list bs -> byte_list (zslice bs a n).
+Proof. intro H. unfold byte_list, zslice, zfirstn, zskipn. now apply Forall_firstn_, Forall_skipn_. Qed.
+
+Lemma zlen_zslice {A} (l : list A) a n : 0 <= a -> 0 <= n -> a + n <= zlen l -> zlen (zslice l a n) = n.
+Proof.
+  intros Ha Hn H. unfold zslice, zfirstn, zskipn, zlen in *. rewrite firstn_length, skipn_length. lia.
+Qed.
+
+(* a k-byte slice of a byte frame is the little-endian encoding of the value read there *)
+Lemma slice_is_le bs off k : byte_list bs -> 0 <= off -> off + Z.of_nat k <= zlen bs ->
+  zslice bs off (Z.of_nat k) = le k (uint_at bs off (Z.of_nat k)).
+Proof.
+  intros Hb Ho Hl. unfold uint_at.
+  pose proof (zlen_zslice bs off (Z.of_nat k) Ho ltac:(lia) Hl) as L.
+  pose proof (byte_list_slice bs off (Z.of_nat k) Hb) as B.
+  set (s := zslice bs off (Z.of_nat k)) in *.
+  assert (Lk : length s = k) by (unfold zlen in L; lia).
+  rewrite <- Lk. symmetry. now apply le_unle.
+Qed.
+
+(* [le 8] of the two's-complement reading is [le 8] of the unsigned reading *)
+Lemma le8_twos u : 0 <= u < 2 ^ 64 -> le 8 (twos 64 u) = le 8 u.
+Proof.
+  intro H. destruct (twos_range 64 u ltac:(lia) H) as (_ & E).
+  rewrite <- (le_mod 8 (twos 64 u)). change (8 * Z.of_nat 8) with 64. now rewrite E.
+Qed.
+
+Lemma uint_at_bound bs off k : byte_list bs -> 0 <= off -> off + Z.of_nat k <= zlen bs ->
+  0 <= uint_at bs off (Z.of_nat k) < 2 ^ (8 * Z.of_nat k).
+Proof.
+  intros Hb Ho Hl. unfold uint_at.
+  pose proof (unle_bound _ (byte_list_slice bs off (Z.of_nat k) Hb)) as B.
+  now rewrite zlen_zslice in B by lia.
+Qed.
+
+Lemma words16_inv : forall n bs, length bs = (2 * n)%nat -> byte_list bs ->
+  flat_map (le 2) (words16 bs) = bs.
+Proof.
+  induction n as [|n IH]; intros bs L B.
+  - destruct bs; [reflexivity | discriminate].
+  - destruct bs as [|b0 [|b1 rest]]; try (cbn in L; lia).
+    inversion B as [|? ? H0 B']; subst. inversion B' as [|? ? H1 B'']; subst.
+    cbn [words16 flat_map]. rewrite IH by (cbn in L; auto; lia).
+    change (le 2 (unle [b0; b1])) with (le (length [b0; b1]) (unle [b0; b1])).
+    rewrite le_unle by (constructor; [assumption | constructor; [assumption | constructor]]). reflexivity.
+Qed.
+
+Lemma words64_inv : forall n bs, length bs = (8 * n)%nat -> byte_list bs ->
+  flat_map (le 8) (words64 bs) = bs.
+Proof.
+  induction n as [|n IH]; intros bs L B.
+  - destruct bs; [reflexivity | discriminate].
+  - destruct bs as [|b0 [|b1 [|b2 [|b3 [|b4 [|b5 [|b6 [|b7 rest]]]]]]]]; try (cbn in L; lia).
+    assert (B8 : byte_list [b0; b1; b2; b3; b4; b5; b6; b7] /\ byte_list rest).
+    { unfold byte_list in *. repeat match goal with H : Forall _ (_ :: _) |- _ => inversion H; clear H; subst end.
+      split; [repeat (apply Forall_cons; [assumption|]); apply Forall_nil | assumption]. }
+    destruct B8 as (B8 & Br).
+    cbn [words64 flat_map]. rewrite IH by (cbn in L; auto; lia).
+    change (le 8 (unle [b0; b1; b2; b3; b4; b5; b6; b7]))
+      with (le (length [b0; b1; b2; b3; b4; b5; b6; b7]) (unle [b0; b1; b2; b3; b4; b5; b6; b7])).
+    rewrite le_unle by exact B8. reflexivity.
+Qed.
+
+Ltac slice_eq hdr off kZ kn :=
+  let S := fresh "S" in
+  assert (S : zslice hdr off kZ = le kn (uint_at hdr off kZ))
+    by (apply (slice_is_le hdr off kn); [assumption | lia | lia]);
+  rewrite S; clear S.
+
+Lemma le8_int64_at hdr off : byte_list hdr -> 0 <= off -> off + 8 <= zlen hdr ->
+  le 8 (int64_at hdr off) = le 8 (uint_at hdr off 8).
+Proof.
+  intros Hb Ho Hl. unfold int64_at. apply le8_twos.
+  apply (uint_at_bound hdr off 8%nat); [assumption | lia | lia].
+Qed.
+
+(* decoding is injective: the decoded fields determine every byte of the message *)
+Lemma decode_record_tight msg f :
+  decode_record msg = Some f ->
+  msg = [ le 2 (f_chan f) ++ le 1 0 ++ le 1 (if f_signed f then 2 else 3) ++ le 4 (f_pre f) ++
+          le 4 (f_nsamp f) ++ le 4 (f_period f) ++ le 4 (f_vpa f) ++ le 8 (f_time f) ++ le 8 (f_frame f);
+          flat_map (le 2) (f_samples f) ] /\
+  zlen (f_samples f) = f_nsamp f.
+Proof.
+  unfold decode_record.
+  destruct msg as [|hdr [|payload [|x l]]]; try discriminate.
+  match goal with |- (if ?c then _ else _) = _ -> _ => destruct c eqn:C end; [|discriminate].
+  intros [= <-]. cbn [f_chan f_signed f_pre f_nsamp f_period f_vpa f_time f_frame f_samples].
+  rewrite !andb_true_iff, !Z.eqb_eq in C.
+  destruct C as (((((Hlen & Hb) & Hpb) & Hver) & Hty) & Hpl).
+  apply bytes_ok_iff in Hb. apply bytes_ok_iff in Hpb. fold (byte_list hdr) in Hb. fold (byte_list payload) in Hpb.
+  assert (Hpay : flat_map (le 2) (words16 payload) = payload).
+  { apply (words16_inv (Z.to_nat (uint_at hdr 8 4))); [|assumption].
+    pose proof (uint_at_bound hdr 8 4%nat Hb ltac:(lia) ltac:(lia)). unfold zlen in Hpl. lia. }
+  assert (Hn : zlen (words16 payload) = uint_at hdr 8 4).
+  { pose proof (zlen_flat_map_le 2 (words16 payload)) as E. rewrite Hpay in E. lia. }
+  split; [|exact Hn]. f_equal; [|now rewrite Hpay].
+  rewrite (le8_int64_at hdr 20), (le8_int64_at hdr 28) by (assumption || lia).
+  assert (Hd : le 1 (if uint_at hdr 3 1 =? 2 then 2 else 3) = le 1 (uint_at hdr 3 1)).
+  { destruct (uint_at hdr 3 1 =? 2) eqn:E2; [apply Z.eqb_eq in E2; now rewrite E2|].
+    destruct (uint_at hdr 3 1 =? 3) eqn:E3; [apply Z.eqb_eq in E3; now rewrite E3|]. discriminate. }
+  rewrite Hd. replace (le 1 0) with (le 1 (uint_at hdr 2 1)) by now rewrite Hver.
+  transitivity (zskipn 0 hdr); [reflexivity|].
+  rewrite (zskipn_step hdr 0 2), (zskipn_step hdr (0 + 2) 1), (zskipn_step hdr (0 + 2 + 1) 1),
+    (zskipn_step hdr (0 + 2 + 1 + 1) 4), (zskipn_step hdr (0 + 2 + 1 + 1 + 4) 4),
+    (zskipn_step hdr (0 + 2 + 1 + 1 + 4 + 4) 4), (zskipn_step hdr (0 + 2 + 1 + 1 + 4 + 4 + 4) 4),
+    (zskipn_step hdr (0 + 2 + 1 + 1 + 4 + 4 + 4 + 4) 8), (zskipn_step hdr (0 + 2 + 1 + 1 + 4 + 4 + 4 + 4 + 8) 8) by lia.
+  rewrite (zskipn_all hdr) by lia. rewrite app_nil_r.
+  cbn [Z.add Pos.add Pos.succ Pos.add_carry].
+  slice_eq hdr 0 2 2%nat. slice_eq hdr 2 1 1%nat. slice_eq hdr 3 1 1%nat. slice_eq hdr 4 4 4%nat.
+  slice_eq hdr 8 4 4%nat. slice_eq hdr 12 4 4%nat. slice_eq hdr 16 4 4%nat. slice_eq hdr 20 8 8%nat.
+  slice_eq hdr 28 8 8%nat. reflexivity.
+Qed.
+
+Lemma decode_summary_tight msg f :
+  decode_summary msg = Some f ->
+  msg = [ le 2 (s_chan f) ++ le 2 0 ++ le 4 (s_pre f) ++ le 4 (s_nsamp f) ++ le 4 (s_ptmean f) ++
+          le 4 (s_peak f) ++ le 4 (s_rms f) ++ le 4 (s_avg f) ++ le 4 (s_resid f) ++
+          le 8 (s_time f) ++ le 8 (s_frame f);
+          flat_map (le 8) (s_coefs f) ].
+Proof.
+  unfold decode_summary.
+  destruct msg as [|hdr [|payload [|x l]]]; try discriminate.
+  match goal with |- (if ?c then _ else _) = _ -> _ => destruct c eqn:C end; [|discriminate].
+  intros [= <-].
+  cbn [s_chan s_pre s_nsamp s_ptmean s_peak s_rms s_avg s_resid s_time s_frame s_coefs].
+  rewrite !andb_true_iff, !Z.eqb_eq in C.
+  destruct C as ((((Hlen & Hb) & Hpb) & Hver) & Hpl).
+  apply bytes_ok_iff in Hb. apply bytes_ok_iff in Hpb. fold (byte_list hdr) in Hb. fold (byte_list payload) in Hpb.
+  assert (Hpay : flat_map (le 8) (words64 payload) = payload).
+  { apply (words64_inv (Z.to_nat (zlen payload / 8))); [|assumption].
+    pose proof (Z.div_mod (zlen payload) 8 ltac:(lia)) as E. pose proof (zlen_nonneg payload).
+    assert (0 <= zlen payload / 8) by (apply Z.div_pos; lia). unfold zlen in *. lia. }
+  f_equal; [|now rewrite Hpay].
+  rewrite (le8_int64_at hdr 32), (le8_int64_at hdr 40) by (assumption || lia).
+  replace (le 2 0) with (le 2 (uint_at hdr 2 2)) by now rewrite Hver.
+  transitivity (zskipn 0 hdr); [reflexivity|].
+  rewrite (zskipn_step hdr 0 2), (zskipn_step hdr (0 + 2) 2), (zskipn_step hdr (0 + 2 + 2) 4),
+    (zskipn_step hdr (0 + 2 + 2 + 4) 4), (zskipn_step hdr (0 + 2 + 2 + 4 + 4) 4),
+    (zskipn_step hdr (0 + 2 + 2 + 4 + 4 + 4) 4), (zskipn_step hdr (0 + 2 + 2 + 4 + 4 + 4 + 4) 4),
+    (zskipn_step hdr (0 + 2 + 2 + 4 + 4 + 4 + 4 + 4) 4), (zskipn_step hdr (0 + 2 + 2 + 4 + 4 + 4 + 4 + 4 + 4) 4),
+    (zskipn_step hdr (0 + 2 + 2 + 4 + 4 + 4 + 4 + 4 + 4 + 4) 8),
+    (zskipn_step hdr (0 + 2 + 2 + 4 + 4 + 4 + 4 + 4 + 4 + 4 + 8) 8) by lia.
+  rewrite (zskipn_all hdr) by lia. rewrite app_nil_r.
+  cbn [Z.add Pos.add Pos.succ Pos.add_carry].
+  slice_eq hdr 0 2 2%nat. slice_eq hdr 2 2 2%nat. slice_eq hdr 4 4 4%nat. slice_eq hdr 8 4 4%nat.
+  slice_eq hdr 12 4 4%nat. slice_eq hdr 16 4 4%nat. slice_eq hdr 20 4 4%nat. slice_eq hdr 24 4 4%nat.
+  slice_eq hdr 28 4 4%nat. slice_eq hdr 32 8 8%nat. slice_eq hdr 40 8 8%nat. reflexivity.
+Qed.
+
+(* the checker accepts exactly one pair of messages per record: the model's *)
+Lemma checker_tight_proof r recmsg summsg :
+  C14_check r recmsg summsg = true -> recmsg = record_msg r /\ summsg = summary_msg r.
+Proof.
+  intro H. destruct (checker_sound_proof r recmsg summsg H) as (D1 & D2 & _).
+  apply decode_record_tight in D1. apply decode_summary_tight in D2.
+  destruct D1 as (D1 & _). split; [exact D1 | exact D2].
+Qed.
+
+(* the frame index read as an UNSIGNED 64-bit value (how the Go comments describe the field) is the
+   record's frame whenever that is non-negative, i.e. always in practice *)
+Lemma frame_unsigned_proof r : 0 <= r_frame r < 2 ^ 63 ->
+  uint_at (nth 0 (record_msg r) []) 28 8 = r_frame r /\
+  uint_at (nth 0 (summary_msg r) []) 40 8 = r_frame r.
+Proof.
+  intro H. cbn [record_msg summary_msg nth]. unfold uint_at.
+  destruct (record_header_layout r) as (_ & _ & _ & _ & _ & _ & _ & _ & L28).
+  destruct (summary_header_layout r) as (_ & _ & _ & _ & _ & _ & _ & _ & _ & _ & L40).
+  rewrite L28, L40. split; apply u64; lia.
+Qed.
+
+(* ---------- concrete instances (non-vacuity) ---------- *)
+
+Definition example_record : record :=
+  {| r_chan := 258; r_signed := false; r_pre := 1; r_data := [1; 65535; 513];
+     r_period := 897988541; r_vpa := 947912704; r_time := -1; r_frame := 4294967296;
+     r_ptmean := 1148846080; r_peak := 2139095040; r_rms := 2143289344; r_avg := 1; r_resid := 0;
+     r_coefs := [4607182418800017408; 18444492273895866368] |}.
+
+Lemma example_fits : fits example_record.
+Proof. apply fits_b_iff. vm_compute. reflexivity. Qed.
+
+(* a message written down by hand from the document's table, decoded by the document-derived decoder *)
+Lemma example_decode_literal :
+  decode_record [[2; 1;  0;  3;  1; 0; 0; 0;  3; 0; 0; 0;  189; 55; 134; 53;  0; 0; 128; 56;
+                  255; 255; 255; 255; 255; 255; 255; 255;  0; 0; 0; 0; 1; 0; 0; 0];
+                 [1; 0; 255; 255; 1; 2]]
+  = Some {| f_chan := 258; f_signed := false; f_pre := 1; f_nsamp := 3; f_period := 897988541;
+            f_vpa := 947912704; f_time := -1; f_frame := 4294967296; f_samples := [1; 65535; 513] |}.
+Proof. vm_compute. reflexivity. Qed.
+
+Lemma example_model_literal :
+  record_msg example_record =
+    [[2; 1;  0;  3;  1; 0; 0; 0;  3; 0; 0; 0;  189; 55; 134; 53;  0; 0; 128; 56;
+      255; 255; 255; 255; 255; 255; 255; 255;  0; 0; 0; 0; 1; 0; 0; 0];
+     [1; 0; 255; 255; 1; 2]].
+Proof. vm_compute. reflexivity. Qed.
